@@ -179,6 +179,8 @@ func runC04(c *Ctx) {
 		})
 	}
 	c04Extra(c)
+	c04NormaliseTotal(c)
+	c04NilOutSameSide(c)
 }
 
 // triEvalBool evaluates a boolean expression with the given identifiers bound to constants.
